@@ -130,6 +130,7 @@ def run(chk: harness.Check):
                         foreign.add(nm)
     chk.analysed = {"facts": th, "reachable_types": sorted(reach), "foreign_types": sorted(foreign), "syn_items": len(items)}
     chk.floor("C15.reach", "reachable local types", len(reach), 20)
+    manual_eq(chk, F, reach)
 
     def judge(rule, tkey, field, ok, where, msg, sample=None):
         key = f"{tkey}|{field}" if field else tkey
@@ -223,6 +224,46 @@ def run(chk: harness.Check):
     for ent in allow:
         if ent not in used:
             chk.notes.setdefault("stale_allow_entries", []).append("|".join(ent))
+
+
+def manual_eq(chk, F, reach):
+    """'deserializes to an EQUAL recipe' is judged by PartialEq: for the types of a recipe that implement it by hand (Number) the
+    comparison must be a plain equality of the two sides' full value — `self.value() == other.value()` — i.e. reflexive on every
+    value that can be serialized; a tolerance, a field subset or a sign-dependent test breaks equality after a round trip."""
+    import c09
+    from flow import show
+    n = 0
+    for k, g in sorted(F.funcs.items()):
+        if g.crate != "cooklang" or g.generated or g.is_closure():
+            continue
+        if not (k.endswith("as std::cmp::PartialEq>::eq") and g.impl_trait is not None or " as std::cmp::PartialEq>::eq" in k):
+            continue
+        ty = k.split("<", 1)[1].split(" as ", 1)[0] if "<" in k else ""
+        if not any(r.endswith(ty) or ty.endswith(r.split("::")[-1]) for r in reach):
+            continue
+        n += 1
+        try:
+            e = c09.return_expr(g)
+        except Exception:
+            e = ("unknown",)
+        txt = show(e, -50)
+        sides = [a for a in (e[2] if e[0] == "call" else ())]
+        ok = e[0] == "call" and e[1].endswith("PartialEq for f64>::eq") or (e[0] == "bin" and e[1] == "Eq")
+        if e[0] == "bin":
+            sides = [e[2], e[3]]
+        def side(x):
+            t = show(x, -50)
+            return ("self" in t, "other" in t, re.sub(r"\b(self|other)\b", "X", t))
+        if ok and len(sides) == 2:
+            a, b_ = side(sides[0]), side(sides[1])
+            ok = a[2] == b_[2] and {a[0], b_[0]} == {True, False} or (a[2] == b_[2] and a[0] != a[1])
+        else:
+            ok = False
+        chk.expect(ok, "C15.S10-manual-eq", f"{ty}|eq", f"{g.file}:{g.line}",
+                   f"the hand-written PartialEq of {ty} is not `f(self) == f(other)` for one reading f of the value (it computes {txt[:120]}): values that "
+                   "serialize identically may compare unequal, or equal recipes may serialize differently",
+                   sample=f"{g.file}:{g.line}: {txt[:80]}")
+    chk.notes["manual_partial_eq_impls_in_reach"] = n
 
 
 def _field_skipped(it, variant, field):
